@@ -84,7 +84,7 @@ def main():
     fixes=subprocess.run(["git","-C","/repo","log","--format=%h %s","bc88f91..HEAD"],capture_output=True,text=True).stdout.strip().splitlines()
     m={
      "version":1,
-     "setup_cmd":"cd /verif && export GOFLAGS=-mod=mod GOPROXY=off && unset GOSUMDB GOTOOLCHAIN && mkdir -p bin evidence replays && go run ./tools/genregistry && go build -o bin/vcheck ./cmd/vcheck && go run ./tools/instr && go build -tags vinstr -overlay .build/instr/overlay.json -o bin/vcheck18 ./cmd/vcheck && go build -race -o bin/vcheck_race ./cmd/vcheck && test -z \"$(go list -deps ./internal/refmodel | grep go-i2p)\" && go test ./internal/choose/ ./internal/snap/",
+     "setup_cmd":"cd /verif && export VERIF_ROOT=/verif GOFLAGS=-mod=mod GOPROXY=off && unset GOSUMDB GOTOOLCHAIN && mkdir -p bin evidence replays && go run ./tools/genregistry && go build -o bin/vcheck ./cmd/vcheck && go run ./tools/instr && go build -tags vinstr -overlay .build/instr/overlay.json -o bin/vcheck18 ./cmd/vcheck && go build -race -o bin/vcheck_race ./cmd/vcheck && test -z \"$(go list -deps ./internal/refmodel | grep go-i2p)\" && go test ./internal/choose/ ./internal/snap/",
      "hooks":{
        "guard":"none (no hook is committed into /repo: instrumentation is generated from the working tree at check time and applied with go build -overlay)",
        "enable":"checks build /repo's current working tree directly (replace directive in /verif/go.mod); C18's instrumented build uses -overlay generated under /verif/.build",
